@@ -42,8 +42,13 @@ class ConnectResponse(KNXIPBodyResponse):
     def from_knx(self, raw: bytes) -> int:
         """Parse/deserialize from KNX/IP raw data."""
 
+        if len(raw) < 2:
+            raise CouldNotParseKNXIP("ConnectResponse has wrong length")
         self.communication_channel = raw[0]
-        self.status_code = ErrorCode(raw[1])
+        try:
+            self.status_code = ErrorCode(raw[1])
+        except ValueError as err:
+            raise CouldNotParseKNXIP("ConnectResponse has unsupported status code") from err
         pos = 2
 
         if self.status_code == ErrorCode.E_NO_ERROR:
@@ -102,12 +107,17 @@ class ConnectResponseData:
 
     def from_knx(self, raw: bytes) -> int:
         """Parse/deserialize from KNX/IP raw data."""
+        if len(raw) < ConnectResponseData.CRD_LENGTH:
+            raise CouldNotParseKNXIP("CRD has wrong length")
         crd_length = raw[0]
         if len(raw) < crd_length:
             raise CouldNotParseKNXIP("CRD has wrong length")
         if crd_length < ConnectResponseData.CRD_LENGTH:
             raise CouldNotParseKNXIP("CRD length too small")
-        self.request_type = ConnectRequestType(raw[1])
+        try:
+            self.request_type = ConnectRequestType(raw[1])
+        except ValueError as err:
+            raise CouldNotParseKNXIP("CRD has unsupported connection type") from err
         if self._is_tunnel_crd():
             if crd_length != ConnectResponseData.CRD_TUNNEL_LENGTH:
                 raise CouldNotParseKNXIP("CRD has wrong length")
